@@ -110,7 +110,7 @@ Definition ok_outcome (s : state) (_ : op) (s' : state) (outs : list out) : bool
 Definition ok_is (_ : state) (_ : op) (s' : state) (outs : list out) : bool :=
   let g := gh s' in
   let active := g_attempt g && Nat.eqb (g_disconnects g) 0 in
-  let up := active && (Nat.eqb (g_connects g) 1 || g_rawc g) in
+  let up := active && (Nat.ltb 0 (g_connects g) || g_rawc g) in
   forallb (fun o => match o with
                     | OIs cing ced dis _ =>
                         Bool.eqb dis (negb active) && Bool.eqb ced up && Bool.eqb cing (active && negb up)
